@@ -130,7 +130,7 @@ def expected(sheets, form=None):
     for key in ("settings", "entities"):
         if key in lower:
             continue
-        cands = [n for n in names if lev(n.lower(), key) <= 2 and n.strip().lower() not in ("survey", "choices", "settings", "external_choices", "osm", "entities") and not n.startswith("_")]
+        cands = [n for n in names if lev(n.lower(), key) <= 2 and n.strip().lower() not in ("survey", "choices", "settings", "external_choices", "osm", "entities") and not n.strip().startswith("_")]
         if cands:
             exp["sheet"].append((key, tuple(sorted(cands))))
     # or_other + translations
